@@ -68,6 +68,17 @@ CHECKS = {
    note='Trusted: z3, stubs (solver contract, newton contract, norm = fresh non-negative), reals for doubles, Rosenbrock order reading (main = err_order+1). '
         'Known finding: coeffs_dirk34 is inconsistent (known_findings.json).',
    technique='compositional symbolic execution with contract stubs + z3 (NRA); ground order-condition queries'),
+ 'C11': dict(
+   category='other', design_ref='4/C11',
+   text='Bounded symbolic verification: the transliterated relaxation_cy kernels and solvers.gauss_seidel (sparse and dense routes) run on CSR structures '
+        'with symbolic data (incl. unsorted columns), symbolic x, b and symbolic index sequences; z3 proves equality with the textbook Gauss-Seidel recurrence '
+        '(forward/backward/symmetric, <=2 iterations), the fixed-point property, and the inductive energy step (one row update of a symmetric system with '
+        'a_ii > 0 never increases the energy error); iterative_solve is verified against an unconstrained step stub (stopping rule), twogrid for array '
+        'starting vectors and the Galerkin orthogonality after one cycle, local_mg_step for the fixed-point property with all five smoothers on symbolic '
+        'two-level systems.',
+   note='Trusted: z3, cyx transliteration, symsparse/CSR stubs, solver contract (B nonsingular, B y = r), norm stubs, reals for doubles. '
+        'Bound: n <= 3/4, maxiter <= 3. Hierarchical smoothing sets/prolongators on real spaces are outside this check.',
+   technique='symbolic execution of transliterated Cython + Python source with z3 (NRA); inductive energy step'),
 }
 
 NA = {
